@@ -7,6 +7,8 @@
 //        "hold":[[slot,site,release_on_caller_site],...]}
 #include <atomic>
 #include <cassert>
+#include <cstdio>
+#include <cstdlib>
 #include <condition_variable>
 #include <mutex>
 #include <thread>
@@ -56,6 +58,7 @@ namespace vh
             std::mutex m;
             std::condition_variable cv;
             const void* pool = nullptr;
+            bool adopt = false;   // flow mode: the pool that spawns workers is adopted, released when joined
             std::vector<thr> th;  // slot 0 = caller, slot i+1 = worker i
             int mutex_owner = -1;  // mirror of m_cv_m: -1 free
             std::mutex* cvm = nullptr;
@@ -71,6 +74,7 @@ namespace vh
         } S;
 
         thread_local int my_slot = -1;
+        constexpr int y_kernel = 60;  // harness-defined schedule point inside kernel functions
 
         bool is_lock_arrival(int site)
         {
@@ -86,13 +90,24 @@ namespace vh
         // every schedule point of the library lands here
         void on_hook(int site, const void* obj, std::size_t idx, const void* aux)
         {
-            if (site == hk::g_neighbors)
-                return;
             std::unique_lock<std::mutex> lk(S.m);
-            if (!S.active || obj != S.pool)
+            if (!S.active)
                 return;
-            if (my_slot < 0)
-                my_slot = (site < 20) ? 0 : static_cast<int>(idx) + 1;
+            if (site == hk::g_neighbors || site == y_kernel)
+            {
+                // interior points of the work items: schedule points for controlled workers only
+                if (my_slot < 1)
+                    return;
+            }
+            else
+            {
+                if (S.adopt && S.pool == nullptr && site == hk::c_spawn)
+                    S.pool = obj;  // flow mode: this pool is about to start workers
+                if (obj != S.pool)
+                    return;  // another pool object (never started): not controlled
+                if (my_slot < 0)
+                    my_slot = (site < 20) ? 0 : static_cast<int>(idx) + 1;
+            }
             if (static_cast<size_t>(my_slot) >= S.th.size())
                 S.th.resize(static_cast<size_t>(my_slot) + 1);
             thr& t = S.th[static_cast<size_t>(my_slot)];
@@ -166,10 +181,15 @@ namespace vh
             return true;
         }
 
-        std::string run_controlled(const vj::value& c, outcome& oc)
+        // Runs body() in a new "caller" thread under the controlled scheduler.  adopt = FALSE: body
+        // sets S.pool itself (pool cases); adopt = TRUE: any pool that starts workers is adopted until
+        // its workers have been joined (flow cases: graphs are created and destroyed by body).
+        std::string run_controlled_body(const vj::value& c, outcome& oc, const std::function<void()>& body, bool adopt)
         {
             size_t size = static_cast<size_t>(c.get_int("size", 2));
             rng_t rng(static_cast<uint64_t>(c.get_int("seed", 1)));
+            S.adopt = adopt;
+            S.pool = nullptr;
             int pct = static_cast<int>(c.get_int("pct", 2));
             long max_steps = c.get_int("max_steps", 6000);
             S.th.assign(1, thr());
@@ -188,69 +208,18 @@ namespace vh
 
             std::vector<long> change_points;
             for (int k = 0; k < pct; ++k)
-                change_points.push_back(static_cast<long>(rng.below(400)));
+                change_points.push_back(static_cast<long>(rng.below(static_cast<uint64_t>(c.get_int("cp_range", 400)))));
             long low_prio = -1;
 
-            std::vector<int> out;
+            {
+                std::lock_guard<std::mutex> lk(S.m);
+                S.active = true;
+            }
             std::thread caller(
                 [&]
                 {
-                    {
-                        fs::thread_pool<std::size_t> pool(size);
-                        {
-                            std::lock_guard<std::mutex> lk(S.m);
-                            S.pool = &pool;
-                            S.active = true;
-                        }
-                        for (auto& opp : c["prog"].a)
-                        {
-                            const auto& op = *opp;
-                            const std::string name = op[0].as_str();
-                            {
-                                std::lock_guard<std::mutex> lk(S.m);
-                                S.log += "{\"e\":\"op\",\"op\":" + vj::dump(op) + "}\n";
-                            }
-                            if (name == "resume")
-                                pool.resume();
-                            else if (name == "pause")
-                                pool.pause();
-                            else if (name == "stop")
-                                pool.stop();
-                            else if (name == "resize")
-                                pool.resize(static_cast<size_t>(op[1].as_int()));
-                            else if (name == "run")
-                            {
-                                size_t first = static_cast<size_t>(op[1].as_int());
-                                size_t last = static_cast<size_t>(op[2].as_int());
-                                out.assign(last + 1, 0);
-                                pool.run_blocks(
-                                    first,
-                                    last,
-                                    [&](std::size_t runner, std::size_t a, std::size_t b)
-                                    {
-                                        for (size_t i = a; i < b; ++i)
-                                            out[i]++;
-                                        std::lock_guard<std::mutex> lk(S.m);
-                                        S.log += "{\"e\":\"cb\",\"r\":" + std::to_string(runner)
-                                                 + ",\"a\":" + std::to_string(a)
-                                                 + ",\"b\":" + std::to_string(b) + "}\n";
-                                    },
-                                    static_cast<size_t>(op[3].as_int()));
-                                std::lock_guard<std::mutex> lk(S.m);
-                                vj::obj o;
-                                o.str("e", "ran").ints("out", out);
-                                S.log += o.done() + "\n";
-                            }
-                            std::lock_guard<std::mutex> lk(S.m);
-                            S.log += "{\"e\":\"ret\",\"op\":\"" + name + "\"}\n";
-                        }
-                        {
-                            std::lock_guard<std::mutex> lk(S.m);
-                            S.log += "{\"e\":\"op\",\"op\":[\"destroy\"]}\n";
-                        }
-                    }  // destructor: stop()
+                    body();
                     std::lock_guard<std::mutex> lk(S.m);
-                    S.log += "{\"e\":\"ret\",\"op\":\"destroy\"}\n";
                     S.caller_done = true;
                     S.th[0].st = ST_NONE;
                     S.cv.notify_all();
@@ -258,12 +227,14 @@ namespace vh
 
             long steps = 0;
             int idle_spins = 0;
+            bool release_after_join = false;
             {
                 std::unique_lock<std::mutex> lk(S.m);
                 while (true)
                 {
                     // wait until settled
-                    auto deadline = std::chrono::steady_clock::now() + std::chrono::milliseconds(3000);
+                    // flow mode: the caller also runs long sequential stretches without any point
+                    auto deadline = std::chrono::steady_clock::now() + std::chrono::milliseconds(adopt ? 120000 : 3000);
                     bool pp = false;
                     bool ok = false;
                     while (!(ok = (S.caller_done || settled_locked(pp))))
@@ -274,6 +245,21 @@ namespace vh
                     }
                     if (S.caller_done)
                         break;
+                    if (release_after_join && S.th[0].st != ST_INJOIN)
+                    {
+                        // the adopted pool has been joined: forget it, the next pool that spawns is adopted
+                        bool all_gone = true;
+                        for (size_t w = 1; w < S.th.size(); ++w)
+                            if (S.th[w].st != ST_EXITING && S.th[w].st != ST_NONE)
+                                all_gone = false;
+                        if (all_gone)
+                        {
+                            S.pool = nullptr;
+                            S.th.resize(1);
+                            S.mutex_owner = -1;
+                            release_after_join = false;
+                        }
+                    }
                     if (S.spurious)
                     {
                         oc.hang = true;
@@ -442,6 +428,8 @@ namespace vh
                     else if (t.site == hk::c_joinall)
                     {
                         S.join_target = t.idx;
+                        if (S.adopt && t.idx + 2 >= S.th.size())
+                            release_after_join = true;  // last worker of the adopted pool
                         // blocked until that worker has been let out
                         t.st = (t.idx + 1 < S.th.size() && S.th[t.idx + 1].st == ST_EXITING)
                                    ? ST_RUNNING
@@ -493,6 +481,71 @@ namespace vh
             std::lock_guard<std::mutex> lk(S.m);
             S.active = false;
             return S.log;
+        }
+
+        std::string run_controlled(const vj::value& c, outcome& oc)
+        {
+            size_t size = static_cast<size_t>(c.get_int("size", 2));
+            std::vector<int> out;
+            auto body = [&]
+            {
+                    {
+                        fs::thread_pool<std::size_t> pool(size);
+                        {
+                            std::lock_guard<std::mutex> lk(S.m);
+                            S.pool = &pool;
+                        }
+                        for (auto& opp : c["prog"].a)
+                        {
+                            const auto& op = *opp;
+                            const std::string name = op[0].as_str();
+                            {
+                                std::lock_guard<std::mutex> lk(S.m);
+                                S.log += "{\"e\":\"op\",\"op\":" + vj::dump(op) + "}\n";
+                            }
+                            if (name == "resume")
+                                pool.resume();
+                            else if (name == "pause")
+                                pool.pause();
+                            else if (name == "stop")
+                                pool.stop();
+                            else if (name == "resize")
+                                pool.resize(static_cast<size_t>(op[1].as_int()));
+                            else if (name == "run")
+                            {
+                                size_t first = static_cast<size_t>(op[1].as_int());
+                                size_t last = static_cast<size_t>(op[2].as_int());
+                                out.assign(last + 1, 0);
+                                pool.run_blocks(
+                                    first,
+                                    last,
+                                    [&](std::size_t runner, std::size_t a, std::size_t b)
+                                    {
+                                        for (size_t i = a; i < b; ++i)
+                                            out[i]++;
+                                        std::lock_guard<std::mutex> lk(S.m);
+                                        S.log += "{\"e\":\"cb\",\"r\":" + std::to_string(runner)
+                                                 + ",\"a\":" + std::to_string(a)
+                                                 + ",\"b\":" + std::to_string(b) + "}\n";
+                                    },
+                                    static_cast<size_t>(op[3].as_int()));
+                                std::lock_guard<std::mutex> lk(S.m);
+                                vj::obj o;
+                                o.str("e", "ran").ints("out", out);
+                                S.log += o.done() + "\n";
+                            }
+                            std::lock_guard<std::mutex> lk(S.m);
+                            S.log += "{\"e\":\"ret\",\"op\":\"" + name + "\"}\n";
+                        }
+                        {
+                            std::lock_guard<std::mutex> lk(S.m);
+                            S.log += "{\"e\":\"op\",\"op\":[\"destroy\"]}\n";
+                        }
+                    }  // destructor: stop()
+                    std::lock_guard<std::mutex> lk(S.m);
+                    S.log += "{\"e\":\"ret\",\"op\":\"destroy\"}\n";
+            };
+            return run_controlled_body(c, oc, body, false);
         }
 
         std::string run_free(const vj::value& c)
@@ -547,6 +600,57 @@ namespace vh
             log += "{\"e\":\"ret\",\"op\":\"destroy\"}\n";
             return log;
         }
+    }
+
+    // A flow case executed under the controlled scheduler (case field "ctl": {seed, pct}): every pool
+    // hook, every grid.neighbors() call made by a worker and every kernel call is a schedule point.
+    std::string run_flow_controlled(const vj::value& c, const std::function<std::string()>& body)
+    {
+        fs::verif::hook().store(&on_hook);
+        outcome oc;
+        std::string result;
+        vj::vptr ctl = vj::parse(vj::dump(c["ctl"]));
+        std::string slog = run_controlled_body(*ctl, oc, [&] { result = body(); }, true);
+        if (const char* sf = std::getenv("FSL_CTL_STATS"))
+        {
+            // how much of the execution was actually under schedule control (evidence, vacuity guard)
+            size_t grants = 0, inner = 0, spawns = 0, pos = 0;
+            while ((pos = slog.find("{\"e\":\"g\"", pos)) != std::string::npos)
+            {
+                ++grants;
+                size_t e = slog.find('\n', pos);
+                std::string ln = slog.substr(pos, e - pos);
+                if (ln.find("\"s\":40,") != std::string::npos || ln.find("\"s\":60,") != std::string::npos)
+                    ++inner;
+                if (ln.find("\"s\":" + std::to_string(hk::c_spawn) + ",") != std::string::npos)
+                    ++spawns;
+                pos = e;
+            }
+            if (FILE* f = std::fopen(sf, "a"))
+            {
+                std::fprintf(f, "{\"id\":\"%s\",\"grants\":%zu,\"inner\":%zu,\"spawns\":%zu,\"hang\":%d}\n",
+                             c.get_str("id", "?").c_str(), grants, inner, spawns, oc.hang ? 1 : 0);
+                std::fclose(f);
+            }
+        }
+        if (oc.hang)
+        {
+            note("hang " + oc.why);
+            _exit(3);  // blocked threads cannot be joined: the parent records the execution as NoReturn
+        }
+        fs::verif::hook().store(nullptr);
+        {
+            std::lock_guard<std::mutex> lk(S.m);
+            S.active = false;
+        }
+        return result;
+    }
+
+    // schedule point inside harness-defined kernel functions (a no-op outside controlled runs)
+    void sched_yield_point()
+    {
+        if (fs::verif::hook().load() == &on_hook)
+            on_hook(y_kernel, nullptr, 0, nullptr);
     }
 
     // blocks cases: {"kind":"pool","blocks":[[first,last,n,min],...]}
